@@ -46,6 +46,14 @@ def measure(rng, pp, net, redundancy, with_current):
         for side in ("hv", "lv"):
             rows.append(("p", "trafo", float(r[f"p_{side}_mw"]), 0.01, int(i), side))
             rows.append(("q", "trafo", float(r[f"q_{side}_mvar"]), 0.01, int(i), side))
+    # an observable subset: bus measurements and from-side flows stay, some to-side P / Q / hv / lv flows are left out independently
+    keep = []
+    for r_ in rows:
+        optional = r_[1] in ("line", "trafo") and r_[5] in ("to", "lv") and r_[0] in ("p", "q")
+        if optional and rng.random() < 0.4:
+            continue
+        keep.append(r_)
+    rows = keep
     extra = [rows[rng.randrange(len(rows))] for _ in range(redundancy)]
     rows = rows + extra
     rng.shuffle(rows)
@@ -77,9 +85,22 @@ def run(ctx):
         want.append(f"{' '.join(str(int(v)) for v in t)} | {' '.join('1' if v else '0' for v in f1)} | {' '.join('1' if v else '0' for v in f2)}")
     for k in range(ctx.budget(16, 200)):
         net = netgen.random_net(rng, kinds=("line", "trafo", "load", "sgen", "shunt"), dcline=False, allow_oos=False,
-                                meshed=rng.random() < 0.6)
+                                meshed=True)
         if len(net.switch):
             net.switch = net.switch.iloc[0:0]
+        if rng.random() < 0.6 and len(net.line) > 3:
+            # an out-of-service line that leaves the net connected (tried on a copy)
+            for i in rng.sample(list(net.line.index), len(net.line)):
+                trial = copy.deepcopy(net)
+                trial.line.at[i, "in_service"] = False
+                try:
+                    with core.quiet():
+                        pp.runpp(trial)
+                    if not trial.res_bus.vm_pu.isna().any():
+                        net.line.at[i, "in_service"] = False
+                        break
+                except Exception:       # noqa
+                    pass
         angles = True
         try:
             with core.quiet():
